@@ -166,6 +166,46 @@ def check_sbxd(ctx, t, log):
     ctx.validate(k, [[b0, x] for x in C.boundary_values(t.bits, [t.gmax, t.gmax + 1])], base=None)
 
 
+WIDE = [C.IT("int", "int", 32, True, 64), C.IT("uint", "unsigned int", 32, False, 64), C.IT("short", "short", 16, True, 32), C.IT("ushort", "unsigned short", 16, False, 32)]
+
+
+def check_load_wide(ctx, t):
+    """B32W: the guest type is wider than the application's: loading narrows and must be checked"""
+    k = "k_load_%s" % t.tag
+    base = ctx.sandbox_base(32)
+    cell = ctx.sym("cell", 64)
+    gb = t.gbits // 8
+    ctx.assume(z3.UGE(cell, base), z3.ULE(cell - base, BV((1 << 32) - gb, 64)))
+    paths = ctx.run(k, [base, cell])
+    mem0 = ctx.eng.initial_memory()
+    raw = z3.Concat(*[z3.Select(mem0, cell + BV(i, 64)) for i in reversed(range(gb))])
+    G = ext(raw, t.signed)
+    fits = z3.And(G >= t.min, G <= t.max)
+    for p in paths:
+        if p.status == "ret":
+            ctx.require(p, z3.And(fits, ext(p.ret, t.signed) == G), "a value read from the sandbox keeps its mathematical value in the narrower application type")
+        elif p.status == "abort":
+            ctx.require(p, z3.Not(fits), "loading aborts only when the sandbox value is not representable in the application type")
+    ctx.only(paths, "ret", "abort")
+    ctx.expect(paths, ret=1, abort=1)
+
+
+def check_store_wide(ctx, t):
+    k = "k_store_%s" % t.tag
+    base = ctx.sandbox_base(32)
+    cell = ctx.sym("cell", 64)
+    v = ctx.sym("v", t.bits)
+    gb = t.gbits // 8
+    ctx.assume(z3.UGE(cell, base), z3.ULE(cell - base, BV((1 << 32) - gb, 64)))
+    paths = ctx.run(k, [base, cell, v])
+    for p in paths:
+        if p.status == "ret":
+            got = z3.Concat(*[z3.Select(p.mem, cell + BV(i, 64)) for i in reversed(range(gb))])
+            ctx.require(p, ext(got, t.signed) == ext(v, t.signed), "widening store keeps the value")
+    ctx.only(paths, "ret")
+    ctx.expect(paths, ret=1)
+
+
 def jobs(tier, seed):
     out = []
     froms = C.ALL_INTS + [C.BOOL]
@@ -175,13 +215,16 @@ def jobs(tier, seed):
                        flags=["-fno-exceptions"]))
     fw8 = {t.tag: t for t in C.FW}
     pq = [("i32", "i64"), ("u32", "u64"), ("i64", "i32"), ("i32", "i32"), ("u32", "i32"), ("i32", "u32")]
+    shapes_q = {("i32", "i64"): [(3,), (2, 3)], ("u32", "i32"): [(3,), (2, 2)]}
     pt = pq + [("u8", "i16"), ("i8", "u8"), ("u64", "i64"), ("i16", "u64"), ("u16", "u16"), ("i64", "u32")]
     pairs = [(fw8[a], fw8[b]) for a, b in (pt if tier == "thorough" else pq)]
     shapes = [(3,), (2, 2)] if tier == "thorough" else [(3,)]
     for grp in C.chunks(pairs, 6):
-        out.append(Job("C06_arr_" + grp[0][0].tag + grp[0][1].tag, array_source(grp, shapes),
+        shp = {(a.tag, b.tag): (shapes if tier == "thorough" else shapes_q.get((a.tag, b.tag), shapes)) for a, b in grp}
+        allshapes = sorted(set(x for v in shp.values() for x in v))
+        out.append(Job("C06_arr_" + grp[0][0].tag + grp[0][1].tag, array_source(grp, allshapes),
                        [dict(name="arr %s<-%s %s" % (a.tag, b.tag, s), fn=check_array, kw=dict(to=a, frm=b, shape=s))
-                        for a, b in grp for s in shapes], flags=["-fno-exceptions"]))
+                        for a, b in grp for s in shp[(a.tag, b.tag)]], flags=["-fno-exceptions"]))
     backends = [("B32", 32)] + ([("B16", 16)] if tier == "thorough" else [])
     for sbx, log in backends:
         for grp in C.chunks(C.TAINTABLE_INTS, 4):
@@ -192,6 +235,10 @@ def jobs(tier, seed):
                 chks.append(dict(name="%s load %s" % (sbx, t.tag), fn=check_load, kw=dict(t=t, log=log)))
                 chks.append(dict(name="%s sandboxed %s" % (sbx, t.tag), fn=check_sbxd, kw=dict(t=t, log=log)))
             out.append(Job("C06_e2e_%s_%s" % (sbx, grp[0].tag), e2e_source(grp, sbx), chks))
+    wchk = []
+    for t in WIDE:
+        wchk += [dict(name="B32W load %s (narrowing)" % t.tag, fn=check_load_wide, kw=dict(t=t)), dict(name="B32W store %s (widening)" % t.tag, fn=check_store_wide, kw=dict(t=t))]
+    out.append(Job("C06_e2e_B32W", e2e_source(WIDE, "B32W").replace('static_assert(sizeof(r) == ', 'static_assert(sizeof(r) >= '), wchk, native=False))
     # arguments and results of invocations and callbacks (the kernels and oracles of C11/C12, value clause only)
     from specs import C11, C12
     fl = ["-D_GLIBCXX_EXTERN_TEMPLATE=0"]
